@@ -1,13 +1,18 @@
 #!/usr/bin/env python3
 """Run the registered checks against the seeded changes under /verif/seeded.
 
-    seeded.py [--tier quick|thorough] [--props C01,C06] [id ...]
+    seeded.py [--tier quick|thorough] [--props C01,C06] [--worktree DIR --copy DIR] [id ...]
 
 For every seeded/<id>/ (patch.diff + meta.json): apply the patch to /repo's
 working tree, run the check of the property the change breaks (plus any listed
 in --props), record whether it reported a VIOLATION, and restore the tree
 (`git checkout -- .`).  Results are appended to seeded/RESULTS.md.  The tree is
 restored even if a check fails; nothing is ever committed to /repo.
+
+With --worktree DIR --copy DIR the patches are applied to the scratch git worktree
+DIR instead (never to /repo) and the checks run from a fresh copy of /verif at
+--copy (`REPO=DIR ./check ...`: the Makefile builds from $REPO), so that seeded runs
+do not disturb checks that are running on /repo at the same time.
 """
 import json
 import os
@@ -17,6 +22,7 @@ import time
 
 VERIF = os.path.dirname(os.path.dirname(os.path.abspath(__file__)))
 REPO = '/repo'
+RUN_FROM = [None]
 
 
 def sh(cmd, **kw):
@@ -29,11 +35,23 @@ def clean_tree():
 
 
 def main(argv):
+    global REPO, VERIF
     tier = 'quick'
     extra = []
     ids = []
     i = 1
     while i < len(argv):
+        if argv[i] == '--worktree':
+            REPO = argv[i + 1]
+            i += 2
+            continue
+        if argv[i] == '--copy':
+            copy = argv[i + 1]
+            sh('mkdir -p %s && rsync -a --delete --exclude build --exclude work --exclude replays --exclude .git --exclude evidence %s/ %s/ && mkdir -p %s/evidence'
+               % (copy, VERIF, copy, copy))
+            RUN_FROM[0] = copy
+            i += 2
+            continue
         if argv[i] == '--tier':
             tier = argv[i + 1]
             i += 2
@@ -47,7 +65,7 @@ def main(argv):
     if not ids:
         ids = sorted(d for d in os.listdir(sdir) if os.path.isdir(os.path.join(sdir, d)))
     if not clean_tree():
-        print('refusing to run: /repo has uncommitted changes to tracked files')
+        print('refusing to run: %s has uncommitted changes to tracked files' % REPO)
         return 2
     rows = []
     for sid in ids:
@@ -62,7 +80,7 @@ def main(argv):
         try:
             for p in props:
                 t0 = time.time()
-                r = sh('cd %s && ./check %s %s' % (VERIF, p, tier), timeout=7200)
+                r = sh('cd %s && REPO=%s ./check %s %s' % (RUN_FROM[0] or VERIF, REPO, p, tier), timeout=7200)
                 viol = [l for l in r.stdout.splitlines() if l.startswith('VIOLATION')]
                 kinds = [l for l in r.stdout.splitlines() if l.strip().startswith('->')]
                 verdict = 'CAUGHT' if r.returncode == 1 and viol else ('missed' if r.returncode == 0 else 'machinery rc=%d' % r.returncode)
